@@ -90,6 +90,7 @@ type Run struct {
 	DiffSamples []DiffSample
 	PassModels [][]InputVal // sample of passing paths for native cross-replay
 	PassObs    []map[string]string
+	AllObs     []map[string]string // observations of the first few paths, whatever their inputs
 	PassPBytes []map[string][]byte // aligned with PassModels when the run aggregates several parameterisations
 }
 
@@ -495,6 +496,9 @@ func (r *Run) Explore() {
 				r.Violations = append(r.Violations, res.Violations...)
 				for fn, n := range res.FnHits {
 					r.FnHits[fn.String()] += n
+				}
+				if len(r.AllObs) < 4 && res.Observed != nil {
+					r.AllObs = append(r.AllObs, res.Observed)
 				}
 				for _, k := range res.Keys {
 					if _, ok := r.Keys[k]; !ok {
